@@ -2647,6 +2647,117 @@ def stage_corr_bodycmp(ctx, env):
                 ctx.broken("correspondence:c10:bodycmp", "fast_compare(%s, %s) = %s, model %s" % (t1, t2, impl, mo))
 
 
+# ====================================================================== histories through module-level caches
+CACHE_MODULES = ["logic.auto", "logic.conv", "data.real", "data.nat", "data.integer"]
+
+
+def clear_caches(env):
+    """Empty every module-level memo of the conversions' modules (dicts named *_record / *_cache,
+    functools caches) in place -- the state a fresh process starts from."""
+    import importlib
+    n = 0
+    for mn in CACHE_MODULES:
+        mod = importlib.import_module(mn)
+        for name, val in list(vars(mod).items()):
+            if isinstance(val, dict) and (name.endswith("_record") or name.endswith("_cache") or name.endswith("_memo")):
+                val.clear()
+                n += 1
+            elif callable(val) and hasattr(val, "cache_clear"):
+                val.cache_clear()
+                n += 1
+    return n
+
+
+def history_terms(env, rng):
+    """Real terms whose normal form depends on what is known about the sign of the bases (products
+    of real powers of the same base), alone and inside larger terms."""
+    x, y, z = env.v["x"], env.v["y"], env.v["z"]
+    h = Fraction(1, 2)
+
+    def pw(b):
+        return rng.choice([b ** h, b ** Fraction(3, 2), b ** Fraction(-1, 2), b ** (-1), b, b ** 2])
+    b = rng.choice([x, y])
+    core = pw(b) * pw(b)
+    r = rng.random()
+    if r < 0.35:
+        core = core * rng.choice([z, pw(rng.choice([x, y])), env.term.Real(2)])
+    t = rng.choice([core, core + rng.choice([y, z, env.term.Real(1)]), rng.choice([z, y]) + core,
+                    core * rng.choice([z, env.term.Real(3)]) + core])
+    return t
+
+
+def gen_history(env, rng):
+    """A sequence of calls on the SAME term (and terms containing it) with different condition
+    sets, through the conversions that use logic/auto.py's records."""
+    T = env.term
+    RT = env.T["real"]
+    t = history_terms(env, rng)
+    pos = {v: tj(T.greater(RT)(env.v[v], T.Real(0))) for v in "xyz"}
+    sets = [[], [], [pos["x"]], [pos["y"]], [pos["x"], pos["y"]], [pos["x"], pos["y"], pos["z"]]]
+    steps = []
+    k = rng.randint(2, 4)
+    for i in range(k):
+        conds = rng.choice(sets)
+        if i == k - 1 and rng.random() < 0.6:
+            conds = []              # mostly: end without conditions
+        kind = rng.random()
+        if kind < 0.65:
+            steps.append({"label": "logic.auto.auto_conv", "ce": ["auto", conds, "assume"], "term": tj(t)})
+        elif kind < 0.8:
+            u = t + env.v["z"] if rng.random() < 0.5 else T.Real(2) * t
+            steps.append({"label": "logic.auto.auto_conv", "ce": ["auto", conds, "assume"], "term": tj(u)})
+        elif kind < 0.9:
+            c = getattr(T, rng.choice(["less", "greater_eq", "equals"]))(RT)(t, rng.choice([T.Real(0), env.v["z"]]))
+            steps.append({"label": "data.real.real_norm_comparison", "ce": ["cls", "data.real.real_norm_comparison"], "term": tj(c)})
+        else:
+            a = rng.choice([env.v["x"], env.v["y"]])
+            steps.append({"label": "data.real.combine_atom", "ce": ["clsc", "data.real.combine_atom", conds, "assume"],
+                          "term": tj(a ** Fraction(1, 2) * a ** Fraction(1, 2))})
+    return steps
+
+
+def run_history(env, ctx, steps, record=True):
+    """Reference: every step from a cleared state.  Then the steps in sequence from a cleared state:
+    each result judged on its own (lhs, hypotheses within ITS conditions, checker) and compared with
+    its reference."""
+    refs = []
+    for st in steps:
+        clear_caches(env)
+        o = judge(env, ctx, st["label"], st["ce"], jt(env, st["term"]), record=False)
+        refs.append((o.kind, o.pt.th if o.pt is not None else None))
+    clear_caches(env)
+    bad = False
+    for i, st in enumerate(steps):
+        t = jt(env, st["term"])
+        o = judge(env, ctx, st["label"], st["ce"], t, record=False)
+        got = (o.kind, o.pt.th if o.pt is not None else None)
+        ctx.count("history:%s:%s" % (st["label"].split(".")[-1], o.kind.split(":")[0] if not o.kind.startswith("violation") else o.kind))
+        if o.kind.startswith("violation") or got != refs[i]:
+            bad = True
+            if record:
+                defect = o.kind.split(":", 1)[1] if o.kind.startswith("violation") else "history-dependent"
+                what = ("step %d of %d (%s on %s with conditions %s) returns %s; from a fresh state it returns %s%s"
+                        % (i + 1, len(steps), st["label"], t, [str(jt(env, c)) for c in (st["ce"][1] if st["ce"][0] == "auto" else st["ce"][2] if st["ce"][0] == "clsc" else [])],
+                           got[1] if got[1] is not None else o.kind, refs[i][1] if refs[i][1] is not None else refs[i][0],
+                           ("; " + o.detail) if o.detail else ""))
+                ctx.violation("%s:%s" % (st["label"], defect if defect != "history-dependent" else "history-dependent"), what,
+                              {"kind": "history", "steps": steps})
+            break
+    clear_caches(env)
+    return bad
+
+
+def stage_history(ctx, env):
+    rng = ctx.rng("history")
+    n = ctx.scale(60, 1200)
+    ncache = clear_caches(env)
+    ctx.coverage["module_caches_found"] = ncache
+    for _ in range(n):
+        steps = gen_history(env, rng)
+        ctx.case(("history", json.dumps(steps)), nontrivial=len({json.dumps(s["ce"]) for s in steps}) > 1)
+        run_history(env, ctx, steps)
+
+
 # ====================================================================== entry points
 def run(ctx):
     ctx.coverage["rule"] = (
@@ -2683,6 +2794,8 @@ def run(ctx):
     stage_evaluator(ctx, env)
     ctx.log("evaluator pairs done")
     stage_clash(ctx, env)
+    stage_history(ctx, env)
+    ctx.log("histories done")
     stage_corr_acnorm(ctx, env)
     stage_corr_conv(ctx, env)
     stage_corr_poly(ctx, env)
@@ -2823,6 +2936,8 @@ def replay_one(ctx, env, r):
         o2 = judge(env, ctx, r["label"], r["ce"], jt(env, r["t2"]))
         if o1.kind == "ok" and o2.kind == "ok" and o1.rhs == o2.rhs:
             ctx.violation("%s:identifies-different-polynomials" % r["label"], "same normal form %s for different polynomials" % o1.rhs, r)
+    elif k == "history":
+        run_history(env, ctx, r["steps"])
     elif k == "int_eq":
         int_eq_judge(env, ctx, jt(env, r["t1"]), jt(env, r["t2"]), r["equal"])
 
@@ -2887,7 +3002,12 @@ MANIFEST = {
             "every run, as are the decisions of nat_norm, real_norm, int_eq_macro and int_norm_eq; proplogic.norm_full / sort_conj / "
             "sort_disj on member sets (oracle only). Fast evaluation against checked proof term for every Conv class overriding "
             "eval and for nat_norm. Every Conv subclass of the six modules is run on generated terms of its domain and judged by "
-            "the real proof checker; binder-traversing conversions on de Bruijn inputs with clashing names.",
+            "the real proof checker; binder-traversing conversions on de Bruijn inputs with clashing names; HISTORIES through the "
+            "module-level caches of logic/auto.py (norm_record, solve_record; every *_record/*_cache dict and functools cache of "
+            "logic/auto.py, logic/conv.py, data/real.py, data/nat.py, data/integer.py is found by introspection): the same term "
+            "normalised with and without conditions in varying orders by auto_conv, real_norm_comparison, combine_atom -- every "
+            "result judged on its own (lhs, hypotheses within ITS conditions, checker) and compared with what the same call "
+            "returns from a cleared state.",
     "note": "Outside the modelled fragment: of_nat, division by "
             "non-constants, real powers, nat truncated subtraction (atoms). int: from_poly writes powers that int's convert_to_poly "
             "reads as atoms, so from_poly o convert_to_poly is only claimed stable for reals (and ints without power atoms). "
